@@ -115,10 +115,13 @@ def check_case(case, ctx, h=None):
         raise Violation(case, 'script inside the domain was refused: %s' % got['refused'], observed=got, expected=_short(exp))
     nexec = len(exp['trace'])
     cls = case.get('cls') or 'grammar'
-    nontriv = nexec >= 3 or cls in ('operand', 'enum1', 'enum2', 'long')
+    nontriv = nexec >= 3 or cls in ('operand', 'enum1', 'enum2', 'long', 'deep-if')
     ctx.case(key, nontriv, dict(case_json(case), outcome=exp['err'] or 'ok', ops=nexec), cls)
     ctx.count('outcome:' + (exp['err'] or 'ok'))
     ctx.count('sv:%d' % case['sv'])
+    ctx.count('class:' + cls)
+    if cls == 'deep-if' and max((len(t[2]) for t in exp['trace']), default=0) >= 256:
+        ctx.count('conditional-nesting>=256-levels')
     # step-by-step comparison
     et, gt = exp['trace'], got['trace']
     for i in range(min(len(et), len(gt))):
@@ -223,7 +226,50 @@ def long_cases(draw):
     return dict(script=c['script'], stack=c['stack'], flags=c['flags'], sv=c['sv'], tx=None, cls='long')
 
 
+@st.composite
+def deep_if_cases(draw):
+    """conditional nesting far deeper than the grammar generator goes: D nested IF/NOTIF (tapscript has no operation limit, so hundreds of
+    levels are legal there; legacy / v0 stop at the 201-operation limit), the first false branch at a chosen level or nowhere, ELSE at a
+    cyclic pattern of levels, optionally one ENDIF missing or one too many"""
+    sv = draw(st.sampled_from([R.TAPSCRIPT, R.TAPSCRIPT, R.TAPSCRIPT, R.BASE, R.WITNESS_V0]))
+    if sv == R.TAPSCRIPT:
+        D = draw(st.sampled_from([9, 64, 127, 128, 129, 254, 255, 256, 256, 257, 258, 300, 383, 384, 511, 512, 513, 600]))
+    else:
+        D = draw(st.sampled_from([9, 50, 66, 67, 99, 100, 101]))
+    false_at = draw(st.one_of(st.just(-1), st.just(-1), st.integers(0, D - 1), st.sampled_from([D - 1, D - 2, max(0, D - 256), max(0, D - 255), min(D - 1, 255), min(D - 1, 256)])))
+    notif_every = draw(st.sampled_from([0, 0, 2, 3, 7]))
+    from_stack = draw(st.booleans()) and D <= 900
+    stack = []
+    out = bytearray()
+    conds = []
+    for i in range(D):
+        notif = notif_every and i % notif_every == 0
+        truth = (i != false_at)
+        v = b'\x01' if truth != bool(notif) else b''
+        conds.append(v)
+        if not from_stack:
+            out += G.push(v, 0)
+        out.append(0x64 if notif else 0x63)
+    if from_stack:
+        stack = conds[::-1]
+    out += bytes([0x51, 0x75]) if draw(st.booleans()) else b''
+    pat = draw(st.lists(st.sampled_from(['', '', 'e', 'en', 'n', 'ee']), min_size=1, max_size=5))
+    missing = draw(st.sampled_from([0, 0, 0, 0, 1, -1]))
+    for i in range(D - max(0, missing)):
+        for ch in pat[i % len(pat)]:
+            out.append(0x67 if ch == 'e' else 0x61)
+        out.append(0x68)
+    if missing < 0:
+        out.append(0x68)
+    out.append(0x51)
+    return dict(script=bytes(out), stack=stack, flags=draw(G.flagsets()), sv=sv, tx=None, cls='deep-if')
+
+
 # ------------------------------------------------------------------ worker tasks
+def w_deep_if(ctx, wid, seed, examples):
+    core.hyp_campaign(ctx, 'deep-if', deep_if_cases(), check_case, examples, seed, case_json)
+
+
 def w_long(ctx, wid, seed, examples):
     core.hyp_campaign(ctx, 'long', long_cases(), check_case, examples, seed, case_json)
 
@@ -298,6 +344,7 @@ def run(tier, t0):
     tasks += [(w_operand, dict(examples=o)) for _ in range(W)]
     tasks += [(w_raw, dict(examples=r)) for _ in range(max(2, W // 4))]
     tasks += [(w_long, dict(examples=max(40, r // 8))) for _ in range(max(2, W // 4))]
+    tasks += [(w_deep_if, dict(examples=max(60, r // 8))) for _ in range(2)]
     m = core.parallel(PID, tasks)
     m.exhaustive = False
     extra = dict(enumerated='all 256 one-letter scripts x %d stacks x 3 versions x %d flag sets; two-letter scripts: %s' % (
